@@ -32,6 +32,124 @@ pub fn run(ctx: &mut Ctx) {
     for case in ctx.cases("wide", 300, true) {
         ctx.run_case("wide", case, wide_case);
     }
+    for case in ctx.cases("reuse", 300, true) {
+        ctx.run_case("reuse", case, reuse_case);
+    }
+}
+
+/// one BDD builder and one SDD builder each compile a sequence of inputs (CNFs that share
+/// clauses, expressions, random plans, the first CNF again): every result is checked and
+/// every earlier result is re-walked afterwards (a compilation must not depend on, or
+/// disturb, what the builder compiled before)
+fn reuse_case(ctx: &mut Ctx, rng: &mut Rng) {
+    let n = rng.range(2, 7);
+    enum In {
+        C(Clauses),
+        E(Ex),
+        P(BottomUpPlan, Tt),
+    }
+    let mut st = style(rng, 20);
+    st.max_vars = n;
+    let base = random_clauses(&st, rng);
+    let mut inputs: Vec<In> = vec![In::C(base.clone())];
+    for _ in 0..rng.range(2, 4) {
+        inputs.push(match rng.below(4) {
+            0 => {
+                let mut c = base.clone();
+                if !c.is_empty() && rng.bool() {
+                    let i = rng.below(c.len());
+                    c.remove(i);
+                }
+                c.push((0..rng.range(1, 3)).map(|_| (rng.below(n), rng.bool())).collect());
+                In::C(c)
+            }
+            1 => In::C(random_clauses(&st, rng)),
+            2 => In::E(Ex::random(n, rng.range(1, 5), rng)),
+            _ => {
+                let (p, t) = rand_plan(n, rng.range(1, 4), rng);
+                In::P(p, t)
+            }
+        });
+    }
+    inputs.push(In::C(base));
+    let exp_of = |i: &In| -> Tt {
+        match i {
+            In::C(c) => clauses_tt(c, n),
+            In::E(e) => e.tt(n),
+            In::P(_, t) => t.clone(),
+        }
+    };
+    let describe = |i: &In| -> serde_json::Value {
+        match i {
+            In::C(c) => json!({"cnf": clauses_json(c)}),
+            In::E(e) => json!({"expr": format!("{:?}", e.to_rsdd())}),
+            In::P(p, _) => json!({"plan": format!("{:?}", p)}),
+        }
+    };
+    let cfg = rand_bdd_cfg(rng, n);
+    with_robdd!(cfg, b, {
+        let mut w = BddWalker::new(n);
+        let mut earlier: Vec<(BddPtr, Tt)> = Vec::new();
+        for (k, i) in inputs.iter().enumerate() {
+            let exp = exp_of(i);
+            let r: BddPtr = match i {
+                In::C(c) => b.compile_cnf(&clauses_to_cnf(c)),
+                In::E(e) => b.compile_logical_expr(&e.to_rsdd()),
+                In::P(p, _) => b.compile_plan(p),
+            };
+            ctx.count("bdd_compilations_in_a_used_builder", if k > 0 { 1 } else { 0 });
+            ctx.case_eval(nontrivial_key(&exp, &format!("reuse{}{:?}", k, cfg.order)));
+            if w.tt(r) != exp {
+                ctx.violation("compile.bdd.reuse", "a compilation in a builder that compiled other inputs before yields a wrong function",
+                    json!({"input": describe(i), "position": k, "before": inputs[..k].iter().map(&describe).collect::<Vec<_>>(), "cfg": cfg.to_json()}));
+                return;
+            }
+            for (j, (p, t)) in earlier.iter().enumerate() {
+                if w.tt(*p) != *t {
+                    ctx.violation("compile.bdd.reuse.drift", "an earlier result changed its function after a later compilation",
+                        json!({"earlier": j, "position": k, "cfg": cfg.to_json()}));
+                    return;
+                }
+            }
+            // the same input compiled twice in one builder is the same diagram
+            if k + 1 == inputs.len() && r != earlier[0].0 {
+                ctx.violation("compile.bdd.reuse.ptr", "compiling the first input again gives a different diagram", json!({"input": describe(i), "cfg": cfg.to_json()}));
+            }
+            earlier.push((r, exp));
+        }
+    });
+    let (fam, vt) = random_vtree(n, rng);
+    crate::caps::set_unique(Some(*rng.pick(&[4usize, 64, 1024])));
+    let builder = CompressionSddBuilder::new(vt.to_rsdd());
+    crate::caps::set_unique(None);
+    let sb = &builder;
+    let mut w = SddWalker::new(n);
+    let mut earlier: Vec<(SddPtr, Tt)> = Vec::new();
+    for (k, i) in inputs.iter().enumerate() {
+        let exp = exp_of(i);
+        let r: SddPtr = match i {
+            In::C(c) => sb.compile_cnf(&clauses_to_cnf(c)),
+            In::E(e) => sb.compile_logical_expr(&e.to_rsdd()),
+            In::P(p, _) => sb.compile_plan(p),
+        };
+        ctx.count("sdd_compilations_in_a_used_builder", if k > 0 { 1 } else { 0 });
+        if w.tt(r) != exp {
+            ctx.violation("compile.sdd.reuse", "a compilation in an SDD builder that compiled other inputs before yields a wrong function",
+                json!({"input": describe(i), "position": k, "before": inputs[..k].iter().map(&describe).collect::<Vec<_>>(), "family": fam, "vtree": vt.to_json()}));
+            return;
+        }
+        for (j, (p, t)) in earlier.iter().enumerate() {
+            if w.tt(*p) != *t {
+                ctx.violation("compile.sdd.reuse.drift", "an earlier SDD result changed its function after a later compilation",
+                    json!({"earlier": j, "position": k, "vtree": vt.to_json()}));
+                return;
+            }
+        }
+        if k + 1 == inputs.len() && !sb.eq(r, earlier[0].0) {
+            ctx.violation("compile.sdd.reuse.ptr", "compiling the first input again gives a different SDD", json!({"input": describe(i), "vtree": vt.to_json()}));
+        }
+        earlier.push((r, exp));
+    }
 }
 
 /// the CNF's (at most 8) variables are spread over up to 200 labels; orders, vtrees, partial
